@@ -21,7 +21,7 @@ from mcx import geom, sched
 
 PID = "C15"
 RULE = (
-    "for every scenario (7 refinement inputs incl. an empty candidate list and caller-supplied optimiser options, 4 locate inputs incl. an empty image, 4 stored sequences incl. equal time stamps and empty frames, with/without "
+    "for every scenario (8 refinement inputs incl. an empty candidate list, caller-supplied optimiser options and a candidate exactly on the coordinate origin, 4 locate inputs incl. an empty image, 5 stored sequences incl. a translated box, incl. equal time stamps and empty frames, with/without "
     "refinement, time course and track list) x worker count k in {2..n+1, auto}: every completion order of the n tasks on k FIFO workers "
     "(depth-first over choice sequences, default-first; count = k!*k^(n-k) for the library's one-task-per-item map, asserted for the "
     "enumerator on a trivial function); all call histories of length <= 2 (3 thorough) over (scenario, k in {1,2}) run in a freshly forked "
@@ -73,6 +73,8 @@ def scenarios(tier):
     out["refine-none"] = {"api": "refine", "drops": [], "kwargs": {}, "shift": 0.0, "field_drops": DROPS5[:2]}
     out["refine-lsq"] = {"api": "refine", "drops": DROPS5[:n], "kwargs": {"vmin": None, "vmax": None, "adjust_values": True, "least_squares_params": {"max_nfev": 400}},
                          "shift": 0.3, "contrast": [1.0, 0.6, 1.5, 0.8, 1.2]}
+    # first candidate centred EXACTLY on the coordinate origin of a periodic box (zero is a member of every alphabet), no displacement
+    out["refine-origin"] = {"api": "refine", "drops": [([0.0, 0.0], 4.1, 1.0)] + DROPS5[1:n], "kwargs": {}, "shift": 0.0, "periodic": [True, True]}
     out["locate-empty"] = {"api": "locate", "drops": [], "kwargs": {"refine": True}}
     out["locate-one"] = {"api": "locate", "drops": DROPS5[2:3], "kwargs": {"refine": True, "modes": 1}}
     # the caller keeps ONE emulsion of candidates for the life of the process and hands a slice of it to every analysis
@@ -90,14 +92,19 @@ def scenarios(tier):
     out["storage-pn"] = {"api": "storage", "frames": ["X", "A", "Y", "X", "B"][:n], "times": t_inc, "kwargs": {"refine": False}, "periodic": [True, False]}
     # cylindrical grid with dz != 1 and periodic z: a frame with a thread spanning the axis, frames with a blob across the boundary
     out["storage-cyl"] = {"api": "storage", "cyl_frames": ["Cm", "T", "Bx", "Cm2", "Bx"][:n], "frames": ["Cm", "T", "Bx", "Cm2", "Bx"][:n], "times": t_inc, "kwargs": {"refine": False}}
+    # the same box translated (equal shape and spacing, other bounds): state keyed on the grid must include the bounds
+    out["storage-shifted"] = {"api": "storage", "frames": ["C", "A", "B", "D", "E"][:n], "times": t_inc, "kwargs": {"refine": True}, "origin": [-16.0, 3.5]}
     out["tracks-dup"] = {"api": "tracks", "frames": ["A", "C", "B", "D", "E"][:n], "times": t_dup, "kwargs": {"refine": False, "method": "distance"}}
     return out
 
 
-def _field(drops, affine=None, contrast=None, periodic=None):
+def _field(drops, affine=None, contrast=None, periodic=None, origin=None):
     from droplets import DiffuseDroplet, Emulsion
 
     grid = geom.make_grid(GRID2 if periodic is None else dict(GRID2, periodic=list(periodic)))
+    if origin is not None:
+        grid = geom.make_grid(dict(GRID2, origin=list(origin)))
+        drops = [([x + o for x, o in zip(c, origin)], R, w) for c, R, w in drops]
     f = Emulsion([DiffuseDroplet(np.array(c, float), R, w) for c, R, w in drops]).get_phasefield(grid) if drops else None
     if contrast and drops:  # every droplet with its own intensity (so automatically determined levels differ per droplet)
         f = sum(DiffuseDroplet(np.array(c, float), R, w).get_phase_field(grid) * a for (c, R, w), a in zip(drops, contrast))
@@ -115,7 +122,7 @@ def build(sc):
     from droplets import DiffuseDroplet, SphericalDroplet
 
     if sc["api"] == "refine":
-        field = _field(sc.get("field_drops", sc["drops"]), sc.get("affine"), sc.get("contrast"))
+        field = _field(sc.get("field_drops", sc["drops"]), sc.get("affine"), sc.get("contrast"), sc.get("periodic"))
         cands = []
         for i, (c, R, w) in enumerate(sc["drops"]):
             pos = np.array(c, float) + sc["shift"] * np.array([1.0, -0.7]) * (1 + 0.3 * i)
@@ -151,9 +158,9 @@ def build(sc):
             st.append(ScalarField(grid, a), t)
         return (st,)
     st = MemoryStorage()
-    st.start_writing(_field([], periodic=sc.get("periodic")))
+    st.start_writing(_field([], periodic=sc.get("periodic"), origin=sc.get("origin")))
     for name, t in zip(sc["frames"], sc["times"]):
-        st.append(_field(FRAMES[name], periodic=sc.get("periodic")), t)
+        st.append(_field(FRAMES[name], periodic=sc.get("periodic"), origin=sc.get("origin")), t)
     return (st,)
 
 
